@@ -233,5 +233,6 @@ func runC43(c *Ctx) []Obligation {
 	)
 	out = append(out, c.decodeTargetsFresh(P)...)
 	out = append(out, genesisParamsInstalled(c, P)...)
+	out = append(out, nodesGenesisImport(c, P)...)
 	return out
 }
